@@ -81,7 +81,10 @@ PROPS["C03"] = {
 
 PROPS["C07"] = {
     "lean": ["WsVerif.Props.C07", "WsVerif.Bridge.C07"],
-    "rule": "UTF8Reader: all byte strings of length <= 2, 3-byte strings over lead C0..FF x 70..CF x 78..C7 (all in thorough, 1/16 in quick), "
+    "rule": "Reader wiring: 16 (quick) / 316 (thorough) text payloads (valid, truncated, overlong, surrogate, > U+10FFFF) under EVERY split into "
+            "three fragments, with and without ping/pong (non-UTF-8 payloads) between the fragments, followed on the same reader by a binary "
+            "message holding invalid UTF-8 and another text message; chunkings {whole,1,2,5}; through ReadMessage, ReadData, Reader+ReadAll "
+            "with and without CheckUTF8. UTF8Reader: all byte strings of length <= 2, 3-byte strings over lead C0..FF x 70..CF x 78..C7 (all in thorough, 1/16 in quick), "
             "every lead byte E0..FF x boundary continuation values for 4-byte forms, long strings assembled from valid / overlong / surrogate / "
             "truncated pieces; each under transport chunkings 0..5, six caller buffer schedules, EOF / failing / data-with-EOF transports. "
             "Every string is also judged by Go's utf8.Valid and by Lean core's String.validateUTF8.",
@@ -122,6 +125,71 @@ PROPS["C06"] = {
                   "ReadFrom / Grow loops is not yet a theorem — it is covered by ~13k exact model/implementation correspondences per run and "
                   "the independent frame-stream oracle.",
     "level_note": "Trusted: Lean kernel, the oracle's reading of the property, harness. Theorems so far are single-step; histories by correspondence.",
+}
+
+READER_TB = [
+    "Spec/Stream.lean (frame-stream parser, the C03 rules threaded through the fragmentation state, message units = first opcode + "
+    "concatenation of unmasked fragment payloads): my reading of RFC 6455 §5.4-5.6",
+    "Driver/C04Oracle.lean judges observed deliveries, errors, bytes consumed and automatic control replies from the raw stream, "
+    "independently of the model",
+    "Model/Reader.lean, Model/Helper.lean, Model/Control.lean mirror wsutil/reader.go, helper.go, handler.go by hand; tied by exact "
+    "correspondence (results, errors, bytes consumed, destination writes) on every generated case",
+    "ioutil.ReadAll / io.ReadFull / bytes.Buffer.ReadFrom / io.Copy modelled as read-until-error loops with a fixed read size",
+]
+
+PROPS["C04"] = {
+    "lean": ["WsVerif.Props.C04"],
+    "rule": "Valid frame streams from a grammar (1-4 messages, 1-4 fragments incl. empty ones, ping/pong with 0..125-byte payloads between "
+            "fragments and between messages, payload classes 0,1,2,7,8,125,126,300 (+70000 in thorough), text built from 1-4-byte code "
+            "points, both sides) replayed under transport chunkings {whole,1,2,3,7,random}, EOF and data-with-EOF transports, through "
+            "ReadMessage, ReadData / Read{Client,Server}{Data,Text,Binary}, and Reader scripts (NextFrame + ReadAll | Read with buffers "
+            "1,2,3,5,512,4096 | Discard per message, collecting OnIntermediate), plus NextReader.",
+    "trusted_base": READER_TB,
+    "assumptions": COMMON_ASSUME + ["caller buffers are non-empty", "callbacks read only from the reader they are given",
+                                    "no earlier error on the same reader (DESIGN §7 N2)"],
+    "level_text": "Kernel-checked so far: the per-read layer for every chunking — the per-frame limited reader hands out exactly a prefix of the "
+                  "frame's bytes, never past its end, and the frame stack delivers their §5.3 unmasking at the running offset (on top of C01's "
+                  "chunk-independent header decoder and C02's cipher theorem). PARTIAL: the message-level refinement theorem (reader = abstract "
+                  "frame-level reader on parseStream) is in progress; message reassembly is currently decided by exact model/implementation "
+                  "correspondence plus the independent stream oracle on ~4.5k (quick) / ~100k (thorough) cases.",
+    "level_note": "Trusted: Lean kernel, Spec/Stream.lean, harness and oracle. Message-level statement by correspondence until the refinement proof lands.",
+}
+
+PROPS["C05"] = {
+    "lean": ["WsVerif.Props.C05"],
+    "rule": "Every valid prefix of 0..2 complete units (optionally followed by an open fragmented message, with interleaved pong) extended by "
+            "every offending frame of the alphabet (reserved data/control opcode, control > 125, non-final control, RSV without extension, RSV on "
+            "control, wrong masking on data and on control, new data frame while fragmented, continuation while idle, wrongly masked "
+            "continuation) and a valid frame after it that must never be delivered; MaxFrameSize at len-1, len, len+1; a 64-bit length with "
+            "the top bit set; both sides; chunkings {whole,1,3,random}; through ReadMessage, the ReadData family and Reader scripts.",
+    "exhaustive_families": ["prefix shape x offending-frame alphabet x side (bounded-exhaustive)"],
+    "trusted_base": READER_TB,
+    "assumptions": COMMON_ASSUME + ["what a caller does with the reader after it returned an error is outside the property"],
+    "level_text": "Kernel-checked: a frame whose header breaks a rule in the reader's current state is refused with that error, state untouched, "
+                  "transport positioned right after the header (no payload byte read); the reported rule is really broken (C03); an over-limit "
+                  "frame is refused before payload access; accepting a data frame makes the fragmentation bit track 'unfinished message open'. "
+                  "PARTIAL: the statement over whole streams ('everything before frame k as for a valid stream') rests on C04's refinement "
+                  "theorem, in progress; decided meanwhile by correspondence + stream oracle.",
+    "level_note": "Trusted: Lean kernel, Spec/Stream.lean, harness and oracle.",
+}
+
+PROPS["C16"] = {
+    "lean": ["WsVerif.Props.C16"],
+    "rule": "Reader: streams of 1-3 messages (with a 10-byte ping between fragments) cut at EVERY byte offset, ending in EOF and in a transport "
+            "error, under chunkings {whole,1,5}, through ReadMessage, the ReadData family and Reader scripts. Writer: random op sequences "
+            "with the destination failing at each write index 0..13, followed by Flush/Write/Flush/FlushFragment/WriteThrough probes; "
+            "WriteMessage with each of its writes failing. (Handshake cuts are added with C09/C10.)",
+    "exhaustive_families": ["cut offsets per stream", "failing destination write index per sequence"],
+    "trusted_base": READER_TB + ["Driver/C06.lean oracle: after a destination error no byte is sent and every write/flush reports it"],
+    "assumptions": COMMON_ASSUME + ["a frame header cut after its first two bytes is io.EOF outside a fragmented message (an error, not success; DESIGN §7 N9)",
+                                    "ReadFrom after a sticky error is outside 'write and flush' (N7)"],
+    "level_text": "Kernel-checked: the per-frame reader never reports a clean EOF while payload bytes are outstanding (io.ErrUnexpectedEOF instead); "
+                  "a clean end of the transport between fragments is io.ErrUnexpectedEOF; once the writer's error is set, Write, WriteThrough, "
+                  "Flush and FlushFragment return it and leave the destination untouched; a failing flush sets it. The unchanged tree violated "
+                  "the property (F9, F10: Discard / filtered reads / intermediate-control handlers took a cut payload for a complete one) — "
+                  "found by the oracle, repaired by fix commit 4fb3446. PARTIAL: message-level 'no success for a cut message' follows from C04's "
+                  "refinement theorem (in progress); meanwhile every cut offset is enumerated.",
+    "level_note": "Trusted: Lean kernel, harness, oracle. Handshake part pending the HTTP model.",
 }
 
 NOT_APPLICABLE = {}
